@@ -24,24 +24,30 @@ Record dstate := {
   d_sigs : list (bytes * (bytes * bytes));  (* valid signatures: key, (signed bytes, signature) *)
   d_watch : list bytes;                     (* addresses whose balance deltas are reported per transaction *)
   d_denoms : list bytes;
+  d_versions : list chain;                  (* committed versions, oldest first *)
+  d_base : N;                               (* block height of the first element of d_versions *)
 }.
 
 Definition dinit : dstate :=
   {| d_unbech := []; d_bech := []; d_chain := empty_chain; d_now := 0%Z; d_fee_collector := []; d_blocked := [];
-     d_tx := None; d_docs := []; d_keys58 := []; d_sigs := []; d_watch := []; d_denoms := [] |}.
+     d_tx := None; d_docs := []; d_keys58 := []; d_sigs := []; d_watch := []; d_denoms := []; d_versions := []; d_base := 1%N |}.
 
 Definition upd_tables (st : dstate) (u : list (bytes * bytes)) (bb : list (bytes * bytes)) : dstate :=
   {| d_unbech := u; d_bech := bb; d_chain := d_chain st; d_now := d_now st; d_fee_collector := d_fee_collector st;
-     d_blocked := d_blocked st; d_tx := d_tx st; d_docs := d_docs st; d_keys58 := d_keys58 st; d_sigs := d_sigs st; d_watch := d_watch st; d_denoms := d_denoms st |}.
+     d_blocked := d_blocked st; d_tx := d_tx st; d_docs := d_docs st; d_keys58 := d_keys58 st; d_sigs := d_sigs st; d_watch := d_watch st; d_denoms := d_denoms st; d_versions := d_versions st; d_base := d_base st |}.
 Definition upd_chain (st : dstate) (c : chain) : dstate :=
   {| d_unbech := d_unbech st; d_bech := d_bech st; d_chain := c; d_now := d_now st; d_fee_collector := d_fee_collector st;
-     d_blocked := d_blocked st; d_tx := d_tx st; d_docs := d_docs st; d_keys58 := d_keys58 st; d_sigs := d_sigs st; d_watch := d_watch st; d_denoms := d_denoms st |}.
+     d_blocked := d_blocked st; d_tx := d_tx st; d_docs := d_docs st; d_keys58 := d_keys58 st; d_sigs := d_sigs st; d_watch := d_watch st; d_denoms := d_denoms st; d_versions := d_versions st; d_base := d_base st |}.
+Definition upd_versions (st : dstate) (vs : list chain) (base : N) : dstate :=
+  {| d_unbech := d_unbech st; d_bech := d_bech st; d_chain := d_chain st; d_now := d_now st; d_fee_collector := d_fee_collector st;
+     d_blocked := d_blocked st; d_tx := d_tx st; d_docs := d_docs st; d_keys58 := d_keys58 st; d_sigs := d_sigs st; d_watch := d_watch st;
+     d_denoms := d_denoms st; d_versions := vs; d_base := base |}.
 Definition upd_tx (st : dstate) (t : option pending) : dstate :=
   {| d_unbech := d_unbech st; d_bech := d_bech st; d_chain := d_chain st; d_now := d_now st; d_fee_collector := d_fee_collector st;
-     d_blocked := d_blocked st; d_tx := t; d_docs := d_docs st; d_keys58 := d_keys58 st; d_sigs := d_sigs st; d_watch := d_watch st; d_denoms := d_denoms st |}.
+     d_blocked := d_blocked st; d_tx := t; d_docs := d_docs st; d_keys58 := d_keys58 st; d_sigs := d_sigs st; d_watch := d_watch st; d_denoms := d_denoms st; d_versions := d_versions st; d_base := d_base st |}.
 Definition upd_env (st : dstate) (now : Z) (fc : bytes) (bl : list bytes) : dstate :=
   {| d_unbech := d_unbech st; d_bech := d_bech st; d_chain := d_chain st; d_now := now; d_fee_collector := fc;
-     d_blocked := bl; d_tx := d_tx st; d_docs := d_docs st; d_keys58 := d_keys58 st; d_sigs := d_sigs st; d_watch := d_watch st; d_denoms := d_denoms st |}.
+     d_blocked := bl; d_tx := d_tx st; d_docs := d_docs st; d_keys58 := d_keys58 st; d_sigs := d_sigs st; d_watch := d_watch st; d_denoms := d_denoms st; d_versions := d_versions st; d_base := d_base st |}.
 
 Definition unbech_of (st : dstate) (s : bytes) : option bytes := lookup s (d_unbech st).
 Definition bech_of (st : dstate) (a : bytes) : bytes :=
@@ -51,12 +57,12 @@ Definition upd_did_tables (st : dstate) (docs : list (bytes * did_doc)) (k58 : l
            (sigs : list (bytes * (bytes * bytes))) : dstate :=
   {| d_unbech := d_unbech st; d_bech := d_bech st; d_chain := d_chain st; d_now := d_now st;
      d_fee_collector := d_fee_collector st; d_blocked := d_blocked st; d_tx := d_tx st;
-     d_docs := docs; d_keys58 := k58; d_sigs := sigs; d_watch := d_watch st; d_denoms := d_denoms st |}.
+     d_docs := docs; d_keys58 := k58; d_sigs := sigs; d_watch := d_watch st; d_denoms := d_denoms st; d_versions := d_versions st; d_base := d_base st |}.
 
 Definition upd_watch (st : dstate) (w : list bytes) (ds : list bytes) : dstate :=
   {| d_unbech := d_unbech st; d_bech := d_bech st; d_chain := d_chain st; d_now := d_now st;
      d_fee_collector := d_fee_collector st; d_blocked := d_blocked st; d_tx := d_tx st;
-     d_docs := d_docs st; d_keys58 := d_keys58 st; d_sigs := d_sigs st; d_watch := w; d_denoms := ds |}.
+     d_docs := d_docs st; d_keys58 := d_keys58 st; d_sigs := d_sigs st; d_watch := w; d_denoms := ds; d_versions := d_versions st; d_base := d_base st |}.
 
 (** ** compkey commands *)
 Definition kind_of_tok (t : tok) : option key_kind :=
@@ -651,7 +657,8 @@ Definition chain_cmd (st : dstate) (cmd : tok) (args : list tok) : option (dstat
   else if tok_is cmd "BLOCK" then
     match args with
     | [t] => match z_of_tok t with
-             | Some z => let st1 := upd_env st z (d_fee_collector st) (d_blocked st) in
+             | Some z => let st0 := match d_versions st with [] => upd_versions st [d_chain st] (d_base st) | _ => st end in
+                         let st1 := upd_env st0 z (d_fee_collector st0) (d_blocked st0) in
                          Some (upd_chain st1 (begin_block (env_of st1) (d_chain st1)), [])
              | None => Some (st, bad) end
     | _ => Some (st, bad)
@@ -712,7 +719,7 @@ Definition chain_cmd (st : dstate) (cmd : tok) (args : list tok) : option (dstat
   else if tok_is cmd "ENDBLOCK" then
     let c := d_chain st in
     let c' := end_block (env_of st) c in
-    Some (upd_chain st c',
+    Some (upd_versions (upd_chain st c') (d_versions st ++ [c']) (d_base st),
           [join_toks (b "B" :: coins_tok (spendable_coins (c_bank c) (d_now st) Generated.GenApp.burn_address)
                         :: map (fun d => print_z (Z.of_N (supply_of (c_bank c') d) - Z.of_N (supply_of (c_bank c) d))) (d_denoms st))])
   else if tok_is cmd "G" then
@@ -795,9 +802,35 @@ Definition chain_cmd (st : dstate) (cmd : tok) (args : list tok) : option (dstat
     end
   else if tok_is cmd "EXPORTIMPORT" then
     match export_import (bech_of st) (unbech_of st) (d_chain st) with
-    | Ok c' => Some (upd_chain st c', [b "X ok"])
+    | Ok c' => Some (upd_versions (upd_chain st c') [c'] (d_base st + N.of_nat (length (d_versions st))), [b "X ok"])
     | Err _ _ => Some (st, [b "X invalid"])
     | Panic => Some (st, [b "X panic"])
+    end
+  else if tok_is cmd "ENDCHECK" then Some (upd_tx st None, [])     (* CheckTx / simulate: no effect on the committed or deliver state *)
+  else if tok_is cmd "ENDSIM" then Some (upd_tx st None, [])
+  else if tok_is cmd "CRASH" then
+    (* stop and restart on the same database: the block in progress (if any) is lost *)
+    match d_versions st with
+    | [] => Some (st, [join_toks [b "H"; print_dec (d_base st)]])
+    | v :: vs => Some (upd_tx (upd_chain st (last vs v)) None,
+                       [join_toks [b "H"; print_dec (d_base st + N.of_nat (length vs))]])
+    end
+  else if tok_is cmd "QH" then
+    (* a query at a committed height (0 = latest committed) *)
+    match args with
+    | h :: qargs =>
+        match parse_dec h with
+        | Some h' =>
+            let ver := if (h' =? 0)%N then (match d_versions st with [] => Some (d_chain st) | v :: vs => Some (last vs v) end)
+                       else if (h' <? d_base st)%N then None
+                       else nth_error (d_versions st) (N.to_nat (h' - d_base st)) in
+            match ver with
+            | Some c => Some (st, q_cmd (upd_chain st c) qargs)
+            | None => Some (st, [b "Q err height"])
+            end
+        | None => Some (st, bad)
+        end
+    | [] => Some (st, bad)
     end
   else if tok_is cmd "Q" then Some (st, q_cmd st args)
   else if tok_is cmd "DUMP" then
